@@ -35,7 +35,7 @@ type CrashSpec struct {
 		// the process dies right after the operation that issued it was acknowledged
 		Async int `json:"async,omitempty"`
 	} `json:"kill"`
-	Kind  string          `json:"kind"` // store | dsm | ns | job ...
+	Kind  string          `json:"kind"`           // store | dsm | ns | job ...
 	Prop  string          `json:"prop,omitempty"` // property the violations are reported under when an inspector serves several
 	Extra json.RawMessage `json:"extra,omitempty"`
 }
